@@ -7,7 +7,7 @@ of stored elements, optional blocks as the trigger version dictates, string pref
 the trigger list, and the library itself must be able to re-load it.
 """
 import os, random, shutil, tempfile, json
-from harness import common, codec_common as cc, bases, vworker, histories
+from harness import common, codec_common as cc, bases, vworker, histories, mgrtrace
 
 RULE = ("per version: seeded random edit histories over all managers with 2-4 saves of one scenario object; every saved file decoded "
         "by the generated Lean reader + re-loaded by the library; non-trivial = a save after at least one structural change "
@@ -171,6 +171,7 @@ def worker(version, args):
                         nsave += 1
             del scn
         # ---- random histories -------------------------------------------------------------------------
+        m4_cmds, m4_expect = [f"table {version}"], []
         for h in range(args["nhist"]):
             hseed = f"C04:{args['seed']}:{version}:{h}"
             rng = random.Random(hseed)
@@ -187,8 +188,15 @@ def worker(version, args):
                 after = (len(scn.trigger_manager.triggers), sum(len(l) for l in scn.unit_manager.units), len(scn.trigger_manager.variables), scn.map_manager.map_size)
                 fn = os.path.join(tmp, f"h{h}_{sidx}.aoe2scenario")
                 with cc.quiet():
-                    st, e = common.outcome(scn.write_to_file, fn)
+                    st, e = common.outcome(mgrtrace.save_traced, scn, fn)
                 replay = {"version": version, "history_seed": hseed, "save_index": sidx, "ops": H.ops[-40:], "nops": len(H.ops)}
+                if st == "ok" and drv and e[0] is not None:
+                    # M4 correspondence: the Lean commit engine, given the sections as they were when the commit started and the
+                    # values the managers pushed, must produce exactly the file the library wrote
+                    raw_ = open(fn, "rb").read()
+                    hl_ = len(scn.sections["FileHeader"].get_data_as_bytes())      # length of the header as just written
+                    m4_cmds += ["settree " + e[0], "commit " + e[1], "ser"]
+                    m4_expect.append((len(m4_cmds) - 1, raw_[:hl_], cc.inflate(raw_[hl_:]), replay))
                 for k, v in H.counts.items():
                     R.dist["op:" + k] += 0
                 if st != "ok":
@@ -202,6 +210,20 @@ def worker(version, args):
             for k, v in H.counts.items():
                 R.dist["op:" + k] += v
             del scn
+        if drv and m4_expect:
+            out = drv.batch(m4_cmds)
+            for ix, h_, b_, replay in m4_expect:
+                o = out[ix]
+                R.dist["m4:commit-compared"] += 1
+                if not o.startswith("ok"):
+                    R.mismatch("Lean commit engine fails where the library saved: " + out[ix - 1][:60] + " / " + o[:60], replay)
+                    continue
+                mh, mb = [cc.unhexd(x.split("=", 1)[1]) for x in o.split()[1:]]
+                if (mh, mb) != (h_, b_):
+                    pos = next((k for k in range(min(len(mb), len(b_))) if mb[k] != b_[k]), min(len(mb), len(b_)))
+                    R.mismatch(f"Lean commit engine predicts a different file (header equal: {mh == h_}, body {len(b_)} vs {len(mb)} bytes, first difference at {pos})", replay)
+                else:
+                    R.traces += 1
     finally:
         shutil.rmtree(tmp, ignore_errors=True)
     return R.to_json()
